@@ -59,3 +59,37 @@ def new_engine(prog, timeout_ms=20000, cando_asm=False):
     eng.cando_asm = cando_asm
     models.install_common(eng)
     return eng
+
+
+# ---- optional query dump for tools/crosscheck.py (never active in the registered commands): VERIF_DUMP_SMT=<dir>
+# writes the SMT-LIB2 text of up to 3 solver queries per distinct call site together with z3's verdict
+if os.environ.get('VERIF_DUMP_SMT'):
+    import z3 as _z3, inspect as _inspect
+    _dump_dir = os.environ['VERIF_DUMP_SMT']
+    os.makedirs(_dump_dir, exist_ok=True)
+    _seen_sites = {}
+    _orig_check = _z3.Solver.check
+
+    def _dumping_check(self, *assumptions):
+        r = _orig_check(self, *assumptions)
+        try:
+            site = None
+            for fr in _inspect.stack()[1:6]:
+                if 'z3' not in os.path.basename(os.path.dirname(fr.filename)):
+                    site = '%s_%d' % (os.path.basename(fr.filename).replace('.py', ''), fr.lineno)
+                    break
+            n = _seen_sites.get(site, 0)
+            if site and n < 3 and len(_seen_sites) < 200:
+                _seen_sites[site] = n + 1
+                s2 = _z3.Solver()
+                s2.add(self.assertions())
+                for a in assumptions:
+                    s2.add(a)
+                txt = s2.to_smt2()
+                if len(txt) < 3_000_000:
+                    tag = os.path.basename(sys.argv[0]).replace('.py', '')
+                    open(os.path.join(_dump_dir, '%s__%s__%d.smt2' % (tag, site, n)), 'w').write('; expected: %s\n%s' % (r, txt))
+        except Exception:
+            pass
+        return r
+    _z3.Solver.check = _dumping_check
